@@ -112,11 +112,12 @@ def cache_seq(rep, profiles, programs, ops, seed_off=0, label="cache-seq"):
     return r
 
 
-def cache_stress(rep, rounds, threads, seed_off=0, label="cache-stress"):
+def cache_stress(rep, rounds, threads, ops=6, seed_off=0, label="cache-stress"):
+    """Free-running threads on one cache; histories with call/ret records, linearized by TLC (CacheStressTrace)."""
     wd = C.workdir()
     out = os.path.join(wd, "%s_%d.ndjson" % (label, time.time_ns()))
-    st = C.run_fv(["cache-stress", "--seed", rep.seed + seed_off, "--rounds", rounds, "--threads", threads, "--out", out],
-                  timeout=3000, binary=BIN)
+    st = C.run_fv(["cache-stress", "--seed", rep.seed + seed_off, "--rounds", rounds, "--threads", threads, "--ops", ops,
+                   "--out", out], timeout=3000, binary=BIN)
     rep.extra.setdefault("driver_stats", []).append(dict(st, driver=label))
     r = validate(rep, out, label, module="CacheStressTrace", batch_records=1500)
     os.unlink(out)
@@ -146,9 +147,12 @@ ASSUME = [
 def C11(rep):
     cache_mc(rep, rep.tier)
     cache_seq(rep, ["mix", "cap", "ttl"], n(rep.tier, 90, 900), 60, label="cache-seq")
-    if os.path.exists(os.path.join(SPEC_DIR, "CacheStressTrace.tla")):
-        cache_stress(rep, n(rep.tier, 40, 400), 3, seed_off=11)
-    rep.assumptions += ASSUME
+    # compute / entry atomicity under real concurrency (OS-chosen interleavings)
+    cache_stress(rep, n(rep.tier, 60, 600), 3, ops=6, seed_off=11)
+    cache_stress(rep, n(rep.tier, 30, 300), 4, ops=5, seed_off=12, label="cache-stress-4")
+    rep.assumptions += ASSUME + [
+        "cache-stress interleavings are chosen by the OS scheduler (threads released by a barrier), not enumerated; the controller-driven "
+        "schedules of the concurrent cache scenarios belong to the main harness"]
 
 
 def C12(rep):
